@@ -1,3 +1,4 @@
+import MoSql.Skip
 /-
 Model of the recogniser engine the SQL grammar runs on (`mo_parsing`): the compiled fast path of
 `And`, `MatchFirst`, `Or`, `Many` (`ZeroOrMore` / `OneOrMore`), `Optional`, `Group`, `Suppress`, `Forward`,
@@ -111,6 +112,14 @@ def emptyMany : G → Bool
   | .opt _ => true
   | .many _ _ 0 _ => true
   | _ => false
+
+/-- the three whitespace engines of the SQL grammar graph: 0 = none, 1 = standard white characters, other = the
+comment-aware engine (`MoSql.Skip.skip`) -/
+def engines (ws : Nat) (x : Str) : Str :=
+  match ws with
+  | 0 => x
+  | 1 => x.dropWhile Skip.isWhite
+  | _ => Skip.skip x
 
 /-- `And`: `idx` = where the last child was tried, `fin` = where it ended -/
 def seqLoop (rec : G → Str → Res) (skip : Str → Str) : List G → Str → Str → List Tok → Res
